@@ -3,6 +3,7 @@
    `TaggedHash::from_merkle_root`) over an abstract tagged hash `H : Tag → Bytes → Bytes`, plus its
    SHA-256 instance.  No Mathlib. -/
 import LdkModel.Prim.Sha256
+import LdkModel.Generated.C18Consts
 namespace Ldk.Merkle
 
 abbrev Bytes := List UInt8
@@ -58,7 +59,9 @@ def splitRecords : Nat → Bytes → Option (List Rec)
 def parseStream (b : Bytes) : Option (List Rec) := splitRecords b.length b
 
 /-- mirrors merkle.rs::SIGNATURE_TYPES = 240..=1000 -/
-def isSig (r : Rec) : Bool := 240 ≤ r.ty && r.ty ≤ 1000
+def sigTypesLo : Nat := 240
+def sigTypesHi : Nat := 1000
+def isSig (r : Rec) : Bool := sigTypesLo ≤ r.ty && r.ty ≤ sigTypesHi
 
 def nonSig (rs : List Rec) : List Rec := rs.filter (fun r => !isSig r)
 
@@ -104,9 +107,11 @@ def rootHash (rs : List Rec) : Bytes :=
     let leaves := (nonSig rs).map (perTlv H first.recordBytes)
     reduce H leaves.length leaves
 
-/-- the loop of merkle.rs::root_hash verbatim (array, `level`, `step = 2 << level`, `offset = step/2`,
-    `leaves[i] = branch(leaves[i], leaves[j])`); the driver checks it against `rootHash` on every case -/
-def rootHashInPlace (rs : List Rec) : Bytes :=
+/-- the loop of merkle.rs::root_hash verbatim in `do` notation (array, `level`, `step = 2 << level`,
+    `offset = step/2`, `leaves[i] = branch(leaves[i], leaves[j])`); `while` is opaque to proofs, so
+    the same loop is written once more with explicit fuel below (`rootHashInPlace`), which IS proved
+    equal to `rootHash`; the driver checks all three against each other on every case -/
+def rootHashInPlaceArr (rs : List Rec) : Bytes :=
   match rs with
   | [] => []
   | first :: _ => Id.run do
@@ -123,6 +128,38 @@ def rootHashInPlace (rs : List Rec) : Bytes :=
         i := i + step
     return leaves[0]!
 
+/-! the in-place loop with explicit fuel: slots of a fixed-size buffer, overwritten level by level -/
+
+/-- content of slot `i` (`[]` outside the buffer) -/
+def slot (a : List Bytes) (i : Nat) : Bytes := (a[i]?).getD []
+
+/-- inner loop of one level: `for (i, j) in (0..n).step_by(step).zip((offset..n).step_by(step))`,
+    `leaves[i] = branch(leaves[i], leaves[j])` with `j = i + offset` -/
+def levelLoop (offset step n : Nat) : Nat → Nat → List Bytes → List Bytes
+  | 0, _, a => a
+  | fuel + 1, i, a =>
+    if i + offset < n then
+      levelLoop offset step n fuel (i + step) (a.set i (branch H (slot a i) (slot a (i + offset))))
+    else a
+
+/-- outer loop: `for level in 0.. { step = 2 << level; offset = step / 2; if offset >= n { break } … }` -/
+def levelsLoop (n : Nat) : Nat → Nat → List Bytes → List Bytes
+  | 0, _, a => a
+  | fuel + 1, level, a =>
+    let step := 2 <<< level
+    let offset := step / 2
+    if offset ≥ n then a else levelsLoop n fuel (level + 1) (levelLoop H offset step n n 0 a)
+
+
+/-- mirrors merkle.rs::root_hash, in-place formulation (proved equal to `rootHash`:
+    `Ldk.C18.merkle_in_place_eq`) -/
+def rootHashInPlace (rs : List Rec) : Bytes :=
+  match rs with
+  | [] => []
+  | first :: _ =>
+    let leaves := (nonSig rs).map (perTlv H first.recordBytes)
+    if leaves.isEmpty then [] else slot (levelsLoop H leaves.length leaves.length 0 leaves) 0
+
 end Ldk.Merkle
 
 namespace Ldk.Merkle
@@ -135,11 +172,27 @@ def taggedSha (tagHash msg : Bytes) : Bytes := sha256 (tagHash ++ tagHash ++ msg
 
 /-- the concrete tagged hashes of merkle.rs::merkle_tlv_data -/
 def shaH : Tag → Bytes → Bytes
-  | .leaf, m => taggedSha (sha256 (ascii "LnLeaf")) m
-  | .nonce first, m => taggedSha (sha256 (ascii "LnNonce" ++ first)) m
-  | .branch, m => taggedSha (sha256 (ascii "LnBranch")) m
+  | .leaf, m => taggedSha (sha256 (ascii Ldk.C18Consts.TAG_STR_LNLEAF)) m
+  | .nonce first, m => taggedSha (sha256 (ascii Ldk.C18Consts.TAG_STR_LNNONCE ++ first)) m
+  | .branch, m => taggedSha (sha256 (ascii Ldk.C18Consts.TAG_STR_LNBRANCH)) m
 
 /-- mirrors merkle.rs::TaggedHash::from_merkle_root: the BIP-340 style digest that is signed -/
 def sigDigest (tag : Bytes) (root : Bytes) : Bytes := taggedSha (sha256 tag) root
+
+/-! Tests (labelled as tests): the verbatim in-place loop and the list reduction agree for every
+    leaf count 0..70, with a structure-revealing (injective, non-truncating) toy hash and records of
+    distinct content, with and without interleaved signature-range records.  The c18b12 driver
+    re-checks the agreement on every `merkle` op with SHA-256. -/
+private def testH : Tag → Bytes → Bytes
+  | .leaf, m => 0 :: m
+  | .nonce f, m => 1 :: (f ++ m)
+  | .branch, m => 2 :: m
+private def testRecs (n : Nat) (withSig : Bool) : List Rec :=
+  (List.range n).flatMap (fun i =>
+    let r : Rec := ⟨[UInt8.ofNat (i % 200)], [UInt8.ofNat (i % 200), 1, UInt8.ofNat (7 * i % 251)]⟩
+    if withSig && i % 3 == 1 then [r, ⟨[0xfd, 0x01, UInt8.ofNat i], [0xfd, 0x01, UInt8.ofNat i, 0]⟩] else [r])
+#guard (List.range 71).all (fun n => rootHash testH (testRecs n false) == rootHashInPlace testH (testRecs n false) && rootHash testH (testRecs n false) == rootHashInPlaceArr testH (testRecs n false))
+#guard (List.range 71).all (fun n => rootHash testH (testRecs n true) == rootHashInPlace testH (testRecs n true) && rootHash testH (testRecs n true) == rootHashInPlaceArr testH (testRecs n true))
+#guard (nonSig (testRecs 9 true)).length == 9 && (testRecs 9 true).length == 12
 
 end Ldk.Merkle
